@@ -21,7 +21,7 @@ ID = "C15"
 LEVEL = "exploration"
 RULE = (
     "Generated units restricted to style-guide names (PascalCase alphabetic message/enum/alias names, lower_snake alphabetic "
-    "field names, UPPER_SNAKE constants and enum members; nesting to depth 3, imports), with c.name_prefix = '<lower_snake>_' "
+    "field names, UPPER_SNAKE constants and enum members; nesting to depth 3, imports, files in sub-directories, a file name with extra dots/dashes such as `x.v2.bitproto` for the file nothing imports), with c.name_prefix = '<lower_snake>_' "
     "on a drawn subset of files. Expected names are computed from the model by the documented scheme and observed in: "
     "symbols of the compiled objects (nm: exactly Encode/Decode/Json<Name> per message besides Bp* internals), a generated C "
     "program that mentions every expected struct/typedef/macro/member/constant (must compile), attributes and dataclass "
